@@ -517,20 +517,27 @@ class PtychographyBase(RNGMixin, AutoSerialize):
         if not (isinstance(model, ProbeBase) or "probe" in str(type(model))):
             raise TypeError(f"probe_model must be a ProbeModelType, got {type(model)}")
 
+        previous = getattr(self, "_probe_model", None)
         self._probe_model = cast(
             ProbeModelType, model
         )  # have before so that energy available to set initial probe
-        if self.dset.preprocessed:
-            self._probe_model.set_initial_probe(
-                self.roi_shape,
-                self.reciprocal_sampling,
-                self.dset.mean_diffraction_intensity,
-                device=self.device,
-            )
-        else:
-            # will be set in ptycho.preprocess after dset is preprocessed
-            pass
-        self._probe_model.to(self.device)
+        try:
+            if self.dset.preprocessed:
+                self._probe_model.set_initial_probe(
+                    self.roi_shape,
+                    self.reciprocal_sampling,
+                    self.dset.mean_diffraction_intensity,
+                    device=self.device,
+                )
+            else:
+                # will be set in ptycho.preprocess after dset is preprocessed
+                pass
+            self._probe_model.to(self.device)
+        except Exception:
+            # a rejected model (e.g. conflicting roi_shape) must not stay attached
+            if previous is not None:
+                self._probe_model = previous
+            raise
 
     @property
     def constraints(self) -> dict[str, Any]:
